@@ -82,6 +82,9 @@ pub struct Policy {
     /// the caller does not consult can_keep_await_100(): it keeps looking at every arrival
     /// until its timer fires (bounded)
     pub poll_past_decision: bool,
+    /// the caller knows about interim responses: after a delivered 1xx head (102..199) it keeps
+    /// polling try_response for the final head instead of advancing (never drawn; set by scenarios)
+    pub skip_interim: bool,
     /// maximum client think time between steps
     pub think_ns: u64,
     /// maximum per-segment latency
@@ -102,6 +105,7 @@ impl Policy {
             toggle_stop: false,
             spurious: false,
             poll_past_decision: false,
+            skip_interim: false,
             think_ns: 0,
             lat_ns: 0,
         }
@@ -126,6 +130,7 @@ impl Policy {
             toggle_stop: ctx.chance(1, 6),
             spurious: ctx.chance(1, 3),
             poll_past_decision: false,
+            skip_interim: false,
             think_ns: *ctx.pick(&[0u64, 100, 10_000, 2_000_000]),
             lat_ns: *ctx.pick(&[0u64, 1_000, 100_000, 40_000_000]),
         }
@@ -724,7 +729,13 @@ impl<'a> Run<'a> {
                 }
             }
             FlowSt::RecvResponse(mut f) => {
-                if lib("Flow<RecvResponse>::can_proceed", || f.can_proceed()) {
+                let ready = lib("Flow<RecvResponse>::can_proceed", || f.can_proceed());
+                // an interim-aware caller does not advance on a 1xx head: it polls for the final one
+                let poll_on = ready && self.ex.policy.skip_interim && self.obs.responses.len() < 4 && self.obs.responses.last().map_or(false, |r| (102..200).contains(&r.status));
+                if poll_on {
+                    ctx.count("f:polled_past_interim_1xx");
+                }
+                if ready && !poll_on {
                     match lib("Flow<RecvResponse>::proceed", || f.proceed()) {
                         Some(r) => {
                             self.st = from_recv_response(r);
